@@ -15,17 +15,18 @@ EXPLANATION = (
     "every activation method (P2 x 7); who-may-call: only Rule.trigger (or a caller guarded by the rule's enabled flag) modifies a consequent"
 )
 ASSUMPTIONS = ["decides how the stages are connected on every path; the numeric values of the stages are not decided"]
-FLOORS = {"P1": 3, "P2": 21, "G": 1, "O-dea": 1, "O-seq": 1, "P3": 3, "P4": 3, "P5": 5, "P6": 2, "P7": 3, "P8": 3, "P9": 7, "P10": 2}
+FLOORS = {"P1": 3, "P2": 21, "A-sem": 2, "O-dea": 1, "P3": 3, "P4": 3, "P5": 5, "P6": 2, "P7": 3, "P8": 3, "P9": 7, "P10": 2}
 
 
 def run(check: Check) -> None:
     wiring.p4_who_modifies(check)
     wiring.p1_process_phases(check)
-    a = c08.Activate(check, "General")
-    c08.common_rules(a)
-    c08.general(a)
+    from .activation_sem import activation_semantics
+
+    # General: every loaded rule is deactivated, its degree computed and the rule triggered, with the block's operators (interpreted on model blocks)
+    activation_semantics(check, "General", ("deactivate-first", "degrees", "conjunction", "disjunction", "implication", "selection"))
     for cls in c08.ACTIVATIONS[1:]:  # the selective methods hand the same three operators of the block to the rules they fire
-        c08.operator_wiring(c08.Activate(check, cls))
+        activation_semantics(check, cls, ("conjunction", "disjunction", "implication"))
     wiring.p3_weight(check)
     wiring.p4_trigger(check)
     wiring.modify_rules(check, p5=True, l1=False, h1=False)
